@@ -145,6 +145,7 @@ func applyAddPublicKeys(doc document.Document, entry interface{}) (document.Docu
 		} else {
 			// new key - append it to existing keys
 			newPublicKeys = append(newPublicKeys, key)
+			existingPublicKeysMap[key.ID()] = key
 		}
 	}
 
@@ -231,6 +232,7 @@ func applyAddServiceEndpoints(doc document.Document, entry interface{}) (documen
 		} else {
 			// new service - append it to existing services
 			newServices = append(newServices, service)
+			existingServicesMap[service.ID()] = service
 		}
 	}
 
@@ -304,6 +306,7 @@ func applyAddAlsoKnownAs(doc document.Document, entry interface{}) (document.Doc
 		if !ok {
 			// new URI - append it to existing URIs
 			newURIs = append(newURIs, uri)
+			existingURIs[uri] = true
 		}
 	}
 
